@@ -34,6 +34,8 @@ type Document struct {
 	// 脚注/尾注管理器与编号管理器（每个文档独立）
 	footnoteManager  *FootnoteManager
 	numberingManager *NumberingManager
+	// word/styles.xml 是否由本库为当前文档生成（而不是来自打开/克隆的文档）
+	stylesGenerated bool
 	// 最近一次 GenerateTOC 使用的配置（供 UpdateTOC 重建目录）
 	tocConfig *TOCConfig
 	// 打开的文档中 styles.xml 关系原有的ID（保存时原样写回；为空表示使用 rId1）
@@ -3041,10 +3043,14 @@ func (d *Document) nextDocumentRelID() string {
 func (d *Document) serializeStyles() error {
 	Debugf("开始序列化样式")
 
-	// 如果在克隆文档时已经保留了完整的 styles.xml（含 docDefaults 等信息），
-	// 这里直接跳过重新生成，避免丢失模板原有的默认段落/字符设置。
-	if existing, ok := d.parts["word/styles.xml"]; ok && len(existing) > 0 {
-		Debugf("检测到已有 styles.xml，跳过样式重建以保留模板默认样式")
+	// 如果在克隆/打开文档时已经保留了完整的 styles.xml（含 docDefaults 等信息），
+	// 不重新生成，避免丢失模板原有的默认段落/字符设置；但样式管理器中存在而该部件
+	// 尚未定义的样式（通过样式API新增的样式、正文引用的预定义样式）必须补充进去，
+	// 否则保存出的文档会引用未定义的样式。
+	// 由本库为当前文档生成的 styles.xml（stylesGenerated）则每次保存都重新生成，
+	// 这样首次保存之后新增或修改的样式也会写入。
+	if existing, ok := d.parts["word/styles.xml"]; ok && len(existing) > 0 && !d.stylesGenerated {
+		d.parts["word/styles.xml"] = d.mergeMissingStyles(existing)
 		return nil
 	}
 
@@ -3089,9 +3095,103 @@ func (d *Document) serializeStyles() error {
 
 	// 添加XML声明
 	d.parts["word/styles.xml"] = append([]byte(xml.Header), data...)
+	d.stylesGenerated = true
 
 	Debugf("样式序列化完成")
 	return nil
+}
+
+// usedStyleIDs 收集正文（段落、表格及其单元格、嵌套表格）引用的样式ID
+func (d *Document) usedStyleIDs() map[string]bool {
+	used := make(map[string]bool)
+	if d.Body == nil {
+		return used
+	}
+	var visitParagraph func(p *Paragraph)
+	var visitTable func(t *Table)
+	visitParagraph = func(p *Paragraph) {
+		if p != nil && p.Properties != nil && p.Properties.ParagraphStyle != nil {
+			used[p.Properties.ParagraphStyle.Val] = true
+		}
+	}
+	visitTable = func(t *Table) {
+		if t == nil {
+			return
+		}
+		if t.Properties != nil && t.Properties.TableStyle != nil {
+			used[t.Properties.TableStyle.Val] = true
+		}
+		for ri := range t.Rows {
+			for ci := range t.Rows[ri].Cells {
+				cell := &t.Rows[ri].Cells[ci]
+				for pi := range cell.Paragraphs {
+					visitParagraph(&cell.Paragraphs[pi])
+				}
+				for ti := range cell.Tables {
+					visitTable(&cell.Tables[ti])
+				}
+			}
+		}
+	}
+	for _, element := range d.Body.Elements {
+		switch e := element.(type) {
+		case *Paragraph:
+			visitParagraph(e)
+		case *Table:
+			visitTable(e)
+		case *SDT:
+			if e.Content != nil {
+				for _, inner := range e.Content.Elements {
+					if p, ok := inner.(*Paragraph); ok {
+						visitParagraph(p)
+					}
+				}
+			}
+		}
+	}
+	return used
+}
+
+// mergeMissingStyles 把样式管理器中存在、但已有 styles.xml 中尚未定义的样式追加到该部件末尾。
+// 已有内容保持原样（逐字节保留）；找不到使用 w 前缀的根结束标记时不做任何修改。
+func (d *Document) mergeMissingStyles(existing []byte) []byte {
+	closing := []byte("</w:styles>")
+	end := bytes.LastIndex(existing, closing)
+	if end < 0 || d.styleManager == nil {
+		return existing
+	}
+
+	used := d.usedStyleIDs()
+	var extra []byte
+	for _, st := range d.styleManager.GetAllStyles() {
+		if st == nil || st.StyleID == "" {
+			continue
+		}
+		// 只补充正文引用的样式和通过样式API创建的自定义样式；
+		// 未被使用的预定义样式不写入，保持打开的文档的 styles.xml 原样
+		if !used[st.StyleID] && !st.CustomStyle {
+			continue
+		}
+		idAttr := []byte(`w:styleId="` + st.StyleID + `"`)
+		if bytes.Contains(existing, idAttr) {
+			continue
+		}
+		data, err := xml.MarshalIndent(st, "  ", "  ")
+		if err != nil {
+			continue
+		}
+		extra = append(extra, data...)
+		extra = append(extra, '\n')
+	}
+	if len(extra) == 0 {
+		return existing
+	}
+
+	merged := make([]byte, 0, len(existing)+len(extra))
+	merged = append(merged, existing[:end]...)
+	merged = append(merged, extra...)
+	merged = append(merged, existing[end:]...)
+	return merged
 }
 
 // parseContentTypes 解析内容类型文件
